@@ -603,3 +603,67 @@ def rule_count_product(rep, fb, floor=3, name="OVERFLOW.count-product"):
                 r.check(bool(guard), "%s#%s" % (f["qual"], a[2][1]), "%s:%d" % (f["file"], a[-1] if isinstance(a[-1], int) else f["line"]),
                         "%s multiplies the count `%s` by a computed factor without first comparing it with limit / factor" % (f["qual"], a[2][1]), detail="overflow refused")
     return r.done()
+
+
+# ------------------------------------------------------------------------------------------------
+# a mask byte is a truth value: any non-zero byte is "true"
+
+def rule_bytemask_normalised(rep, fb, floor=8, name="KSIB.bytemask-normalised"):
+    r = rep.rule(name, "in every kernel that takes an 8-bit mask together with validwhen / valid_when, a mask element is compared with the flag only after `!= 0` (`(mask[i] != 0) == validwhen`): "
+                 "ByteMaskedArray accepts any non-zero byte as true (NumPy bool views, 0xFF masks), and the sibling kernels numnull / nextcarry / nextcarry_outindex / toIndexedOptionArray must agree on which items are valid - "
+                 "a kernel that compares the raw byte counts fewer valid items than its siblings and leaves part of a buffer sized by them unwritten", floor=floor)
+    for name_, fs in sorted(fb.kernel_functions().items()):
+        for f in fs:
+            if f["inst"]:
+                continue
+            flags = [pn for pn, pt in f["params"] if pn.replace("_", "") == "validwhen"]
+            masks = [pn for pn, pt in f["params"] if "mask" in pn and "*" in pt and re.search(r"\bint8_t\b|\bchar\b|signed char", pt)]
+            if not flags or not masks:
+                continue
+            n = 0
+            for c in find_all(f["body"], lambda k: k[0] == "bin" and k[1] in ("==", "!=")):
+                sides = [c[2], c[3]]
+
+                def strip(e):
+                    while e and e[0] in ("cast", "narrow", "widen"):
+                        e = e[3]
+                    return e
+                ss = [strip(x) for x in sides]
+                flagside = [x for x in ss if find_all((x,), lambda q: q[0] == "var" and q[1] in flags)]
+                if not flagside:
+                    continue
+                other = [x for x in ss if x not in flagside]
+                if not other:
+                    continue
+                o = other[0]
+                raw = o[0] == "idx" and o[1][0] == "var" and o[1][1] in masks
+                viavar = o[0] == "var" and any(d[3] is not None and strip(d[3])[0] == "idx" and strip(d[3])[1] == ("var", mk) for mk in masks for d in find_all(f["body"], lambda k: k[0] == "decl" and k[1] == o[1]))
+                involves = bool(find_all((o,), lambda q: q[0] == "idx" and q[1][0] == "var" and q[1][1] in masks)) or viavar
+                if not involves:
+                    continue
+                n += 1
+                r.check(not (raw or viavar), "%s#%d" % (f["qual"], n), "%s:%d" % (f["file"], c[-1] if isinstance(c[-1], int) else f["line"]),
+                        "%s compares the raw mask byte with %s: a non-zero byte other than 1 is treated as false here and as true by the sibling kernels" % (f["qual"], flags[0]), detail="(mask != 0) compared")
+    return r.done()
+
+
+# ------------------------------------------------------------------------------------------------
+# the owner depth of a do-loop is sign-encoded
+
+def rule_forth_depth_abs(rep, fb, floor=4, name="FORTH.loop-depth-abs"):
+    r = rep.rule(name, "ForthMachine compares the recursion depth recorded for the innermost do-loop with recursion_current_depth_ only through do_abs_recursion_depth(): a `+loop` stores its depth bit-flipped "
+                 "(negative) to tell itself from `loop`, so the raw do_recursion_depth() never equals the current depth and single-step mode would neither finish nor advance a +loop", floor=floor)
+    n = 0
+    for f in fb.lib_funcs(inst=False):
+        if not f["file"].endswith("ForthMachine.cpp"):
+            continue
+        for c in find_all(f["body"], lambda k: k[0] == "bin" and k[1] in ("==", "!=", "<", "<=", ">", ">=") and "recursion_current_depth_" in repr(k)):
+            calls = [m[1] for m in find_all((c,), lambda q: q[0] == "mcall" and q[1] in ("do_recursion_depth", "do_abs_recursion_depth"))]
+            if not calls:
+                continue
+            n += 1
+            r.check("do_recursion_depth" not in calls, "%s#%d" % (f["qual"], n), "%s:%d" % (f["file"], c[-1] if isinstance(c[-1], int) else f["line"]),
+                    "%s compares the sign-encoded do_recursion_depth() with recursion_current_depth_" % f["qual"], detail="abs accessor")
+    if n < 4:
+        raise AnalysisError("ForthMachine.cpp: only %d comparisons of the loop owner depth found" % n)
+    return r.done()
